@@ -63,6 +63,9 @@ def topologies():
         mk('loop2_obs', [['A', 'B'], 'O'], {'A': 'ev', 'B': 'ev', 'O': 'ev'}, [('A', 'B'), ('B', 'A', {'weak': True}), ('B', 'O')], init={'A': 0}),
         mk('loop2_obs_in', [['A', 'B', 'O']], {'A': 'ev', 'B': 'ev', 'O': 'ev'}, [('A', 'B'), ('B', 'A', {'weak': True}), ('B', 'O')], init={'A': 0}),
         mk('loop_outer', [['A', ['B']]], {'A': 'ev', 'B': 'ev'}, [('A', 'B'), ('B', 'A', {'weak': True})], init={'A': 0}),
+        mk('loop_sibling_sub', [[['A'], ['B']]], {'A': 'ev', 'B': 'ev'}, [('A', 'B'), ('B', 'A', {'weak': True})], init={'A': 0}),
+        mk('loop_sibling_sub2', [[['A'], ['B']]], {'A': 'ev', 'B': 'ev'}, [('A', 'B', {'weak': True}), ('B', 'A')], init={'A': 0}),
+        mk('loop_deep', [[['A', 'B']]], {'A': 'ev', 'B': 'ev'}, [('A', 'B'), ('B', 'A', {'weak': True})], init={'A': 0}),
         mk('loop_hy', [['A', 'B']], {'A': 'hy', 'B': 'hy'}, [('A', 'B'), ('B', 'A', {'weak': True})]),
     ]
 
